@@ -13,3 +13,9 @@ size_t slipsim_worst_case(size_t n, int with_sof)
 {
     return with_sof ? RFC1055_WORST_WITHSOF(n) : RFC1055_WORST_CLASSIC(n);
 }
+
+/* the same with arguments that are expressions themselves (the run-time mode selection idiom of examples/ex-rfc1055-parse-frame.c) */
+size_t slipsim_worst_case_expr(size_t a, size_t b, int usesof)
+{
+    return RFC1055_WORST_CASE(a + b, usesof ? RFC1055_WITH_SOF : RFC1055_DEFAULT);
+}
